@@ -991,6 +991,22 @@ def laws(rng, tier, ctx):
             if enc(once) != enc(twice) or type(once) is not type(twice):
                 yield Finding('violation', dict(tag='law-%s-idem' % op, lines=['(lift %s %s)' % (op, enc(v))]),
                               '%s(v) = %s but %s(%s(v)) = %s' % (nm, enc(once), nm, nm, enc(twice)))
+    # (4b) ... also on the iterables `is_rng` accepts, which the wire cannot spell (review t5): dict key / value views, ranges, zips (an items view is not `is_rng`: it is wrapped like a scalar).  They are
+    # read as the list of their items, so the replay line (and the K2 class: exactly one item, a list) is that of `list(v)`
+    for mkv, what in [(lambda: {'a': [1, 2]}.values(), "{'a':[1,2]}.values()"), (lambda: {'a': 1, 'b': 2}.keys(), "{'a':1,'b':2}.keys()"),
+                      (lambda: range(3), 'range(3)'), (lambda: range(0), 'range(0)'),
+                      (lambda: range(1), 'range(1)'), (lambda: zip([1, 2], [3, 4]), 'zip([1,2],[3,4])'), (lambda: {'a': [[1]]}.values(), "{'a':[[1]]}.values()"),
+                      (lambda: {}.values(), '{}.values()'), (lambda: {'a': (1, 2)}.values(), "{'a':(1,2)}.values()")]:
+        for nm, fn, op in (('as_list', as_list, 'aslist'), ('as_tuple', as_tuple, 'astuple')):
+            count += 1
+            once = fn(mkv())
+            twice = fn(copy.deepcopy(once))
+            if enc(once) != enc(fn(list(mkv()))) or type(once) is not (list if op == 'aslist' else tuple):
+                yield Finding('violation', dict(tag='law-%s-iterable' % op, lines=[], values=[what]),
+                              '%s(%s) = %s but %s of the list of its items = %s' % (nm, what, enc(once), nm, enc(fn(list(mkv())))))
+            elif enc(once) != enc(twice) or type(once) is not type(twice):
+                yield Finding('violation', dict(tag='law-%s-idem' % op, lines=['(lift %s %s)' % (op, enc(list(mkv())))], values=[what]),
+                              '%s(v) = %s but %s(%s(v)) = %s for v = %s' % (nm, enc(once), nm, nm, enc(twice), what))
     # (5) the public text / number helpers are the lifted leaf functions (shape and leaves), on same-shape / scalar companions
     for _ in range(n // 2):
         name = rng.choice(['lower', 'upper', 'strip', 'proper', 'f12', 'as_float', 'split', 'replace'])
